@@ -781,6 +781,11 @@ pub fn generate_code(context: &Context) -> Result<u32, &'static str>
         {
             return Err("Failed to write the lock file");
         }
+
+        if reference_updates.failure
+        {
+            return Err("Failed to update one or more files");
+        }
     }
     else
     {
